@@ -682,6 +682,265 @@ def u_wrapper_toplevel(root):
     return eng
 
 
+
+# ------------------------------------------------------------------ (g) YAML shorthand: process_error_sources
+CET = "@kafe2/fit/representation/error/common_error_tools.py"
+
+
+class VPct(V):
+    """the string '<p>%' with symbolic p"""
+
+    def __init__(self, p):
+        self.p = p
+
+    def vattr(self, e, st, name):
+        if name == "endswith":
+            return VFn(lambda e_, st_, a, kw: VBool(z3.BoolVal(isinstance(a[0], VStr) and a[0].s == "%")))
+
+    def vsub(self, e, st, n):
+        if ast.unparse(n.slice) == ":-1":
+            return VDigits(self.p)
+
+
+class VDigits(V):
+    """the decimal text of a number (what float() parses back)"""
+
+    def __init__(self, p):
+        self.p = p
+
+
+class VFn(V):
+    def __init__(self, fn):
+        self.fn = fn
+
+    def vcall(self, e, st, a, kw):
+        return self.fn(e, st, a, kw)
+
+
+class VMixed(V):
+    """list entry that is either a percent string (is_str) or a number"""
+
+    def __init__(self, is_str, pct, num):
+        self.is_str, self.pct, self.num = is_str, pct, num
+
+    def real(self):
+        return self.num
+
+    def vattr(self, e, st, name):
+        if name == "endswith":
+            return VFn(lambda e_, st_, a, kw: VBool(z3.BoolVal(True)))         # only reached for strings; every string entry is a percent string (others raise ValueError: not modelled)
+
+    def vsub(self, e, st, n):
+        if ast.unparse(n.slice) == ":-1":
+            return VDigits(self.pct)
+
+
+def u_yaml_errors(root):
+    """process_error_sources: every shorthand adds the sources its explicit form adds (sizes compared entry by entry, for any number of data points)"""
+    eng = engine(root, FILES, {}, [])
+    n = z3.Int("size")
+
+    def isinst(e, st, a, kw, node):
+        x, spec = a[0], ast.unparse(node.args[1])
+        is_str = isinstance(x, (VStr, VPct))
+        is_num = isinstance(x, VNum)
+        is_list = isinstance(x, (VTuple, VSeq, VSeqOf)) and not isinstance(x, VStr)
+        if spec == "XYContainer":
+            return VBool(z3.BoolVal(x.name == "xy"))
+        if isinstance(x, VMixed):
+            if spec == "str":
+                return VBool(x.is_str)
+            if spec in ("(int, float, str)", "(float, int, str)"):
+                return VBool(z3.BoolVal(True))
+            if spec == "list":
+                return VBool(z3.BoolVal(False))
+        table = {"(int, float, str)": is_str or is_num, "(float, int, str)": is_str or is_num, "list": is_list, "dict": isinstance(x, VDict), "str": is_str, "float": is_num}
+        if spec not in table:
+            raise Unsupported("isinstance " + ast.unparse(node))
+        return VBool(z3.BoolVal(table[spec]))
+    eng.lib["isinstance"] = isinst
+    eng.lib["float"] = lambda e, st, a, kw, node: VNum(a[0].p) if isinstance(a[0], VDigits) else VNum(a[0].real())
+    base_mul = eng.binop
+
+    def binop(op, a, b, node=None):
+        if isinstance(op, ast.Mult) and isinstance(a, VTuple) and len(a.items) == 1 and isinstance(b, VNum) and not z3.is_int_value(z3.simplify(b.e)):      # [x] * size: a list of `size` copies
+            x = a.items[0]
+            if isinstance(x, VNum):
+                r = VSeq(FnArr(lambda k_: x.real()), b.e)
+                r.pylist = True
+                return r
+            return VSeqOf(lambda q: x, b.e)
+        empty = lambda v_: (isinstance(v_, VSeq) and z3.is_int_value(z3.simplify(v_.len)) and z3.simplify(v_.len).as_long() == 0) or (isinstance(v_, VTuple) and not v_.items)
+        if isinstance(op, ast.Add) and isinstance(b, (VSeqOf, VSeq)) and empty(a):
+            return b
+        if isinstance(op, ast.Add) and isinstance(a, (VSeqOf, VSeq)) and empty(b):
+            return a
+        return base_mul(op, a, b, node)
+    eng.binop = binop
+
+    def add_to(e, st, a, kw, node):
+        st.ghost = dict(st.ghost)
+        st.ghost["added"] = st.ghost.get("added", ()) + ((as_py(a[0]), dict(kw)),)
+        return a[1]
+    eng.lib["add_error_to_container"] = add_to
+    added = lambda st: list(st.ghost.get("added", ()))
+
+    class Cont(VExternal):
+        pass
+
+    def container(kind):
+        c = Cont(kind, {})
+        c.vattr = lambda e, st, name: VNum(n) if name == "size" else None
+        return c
+    rng = lambda a_: z3.And(0 <= a_, a_ < n)
+
+    def sizes(call, rel_expected, fn, axis):
+        kind, kw = call
+        ev = kw.get("err_val")
+        ok = kind == "simple" and isinstance(ev, VSeq) and as_py(kw.get("relative")) is rel_expected and (("axis" not in kw) if axis is None else as_py(kw.get("axis")) == axis)
+        return z3.And(z3.BoolVal(bool(ok)), ev.len == n, z3.ForAll([i], z3.Implies(rng(i), ev.arr[i] == fn(i)))) if ok else z3.BoolVal(False)
+
+    sv, pv = z3.Real("scalar_error"), z3.Real("percent")
+    vec = VSeq(z3.Const("error_list", PA), n); vec.pylist = True
+    isstr, pct, num = z3.Function("entry_is_percent_string", I, B), z3.Function("entry_percent", I, R), z3.Function("entry_number", I, R)
+    mixed = VSeqOf(lambda q: VMixed(isstr(q), pct(q), num(q)), n)
+    shorthand = {
+        "scalar number": (lambda: VNum(sv), lambda a_: z3.RealVal(0), lambda a_: sv),
+        "percent string": (lambda: VPct(pv), lambda a_: z3.Q(1, 100) * pv, lambda a_: z3.RealVal(0)),
+        "list of numbers": (lambda: vec, lambda a_: z3.RealVal(0), lambda a_: vec.arr[a_]),
+        "mixed list of numbers and percent strings": (lambda: mixed, lambda a_: z3.If(isstr(a_), z3.Q(1, 100) * pct(a_), z3.RealVal(0)), lambda a_: z3.If(isstr(a_), z3.RealVal(0), num(a_))),
+    }
+    for kind, key, axis in (("xy", "y_errors", 1), ("xy", "x_errors", 0), ("indexed", "errors", None)):
+        for name, (mkval, relf, absf) in shorthand.items():
+            c = Contract(CET, "process_error_sources")
+            c.requires.append(lambda vw: n >= 1)
+            c.loops[0] = lambda e, s: z3.BoolVal(True)      # (only reached if the shorthand is NOT recognised as one list: the post then fails)
+            c.loops[1] = lambda e, s, relf=relf, absf=absf: z3.And(0 <= s.locals["#i1"].e, s.locals["#i1"].e <= n, s.locals["_rel"].len == n, s.locals["_abs"].len == n,
+                                                                  z3.ForAll([j], z3.Implies(rng(j), z3.And(s.locals["_rel"].arr[j] == z3.If(j < s.locals["#i1"].e, 100 * relf(j), z3.RealVal(0)),
+                                                                                                           s.locals["_abs"].arr[j] == z3.If(j < s.locals["#i1"].e, absf(j), z3.RealVal(0))))))
+
+            def post(vw, relf=relf, absf=absf, axis=axis):
+                ad = added(vw.post)
+                if len(ad) != 2:
+                    return [("the shorthand adds one relative and one absolute simple source", z3.BoolVal(False))]
+                return [("relative part: p/100 where the entry is 'p%', 0 elsewhere (a zero-size relative source when there is none)", sizes(ad[0], True, relf, axis)),
+                        ("absolute part: the number where the entry is a number, 0 elsewhere", sizes(ad[1], False, absf, axis))]
+            c.ensures.append(post)
+            eng.verify(CET, "process_error_sources", None, lambda e, st, me_, kind=kind, key=key, mkval=mkval: {"container_obj": container(kind), "yaml_doc": VDict({key: mkval()})}, contract=c, tag=f"[{kind}.{key}: {name}]")
+        # explicit forms: a list of error objects, and ONE error object (not wrapped in a list) mean the same calls
+        obj = lambda: VDict({"type": VStr("simple"), "error_value": VNum(z3.Real("ev")), "correlation_coefficient": VNum(z3.Real("rho")), "relative": VBool(z3.Bool("is_rel")), "name": VStr("src")})
+        mobj = lambda: VDict({"type": VStr("matrix"), "matrix": VOpaque("M"), "matrix_type": VStr("cor"), "error_value": VOpaque("sizes")})
+        for form, mk_doc, exp in (("list of two error objects", lambda: VTuple([obj(), mobj()]), ["simple", "matrix"]), ("one error object", obj, ["simple"]), ("one matrix error object", mobj, ["matrix"]), ("defaults", lambda: VTuple([VDict({"error_value": VNum(z3.Real("ev"))})]), ["simple-defaults"])):
+            c = Contract(CET, "process_error_sources")
+            c.loops[0] = lambda e, s: z3.BoolVal(True)      # (only reached if the error objects end up in a list of symbolic length: the post then fails)
+            c.loops[1] = lambda e, s: z3.BoolVal(True)
+
+            def post(vw, exp=exp, axis=axis):
+                ad = added(vw.post)
+                ok = len(ad) == len(exp)
+                for (kind_, kw), want in zip(ad, exp):
+                    ax_ok = (("axis" not in kw) if axis is None else as_py(kw.get("axis")) == axis)
+                    if want == "simple":
+                        ok = ok and kind_ == "simple" and ax_ok and kw["err_val"].real().eq(z3.Real("ev")) and kw["correlation"].real().eq(z3.Real("rho")) and kw["relative"].e.eq(z3.Bool("is_rel")) and as_py(kw["name"]) == "src"
+                    elif want == "simple-defaults":
+                        ok = ok and kind_ == "simple" and ax_ok and kw["err_val"].real().eq(z3.Real("ev")) and as_py(kw["correlation"]) == 0 and as_py(kw["relative"]) is False and isinstance(kw["name"], VNone)
+                    else:
+                        ok = ok and kind_ == "matrix" and ax_ok and isinstance(kw["err_matrix"], VOpaque) and kw["err_matrix"].tag == "M" and as_py(kw["matrix_type"]) == "cor" and kw["err_val"].tag == "sizes" and as_py(kw["relative"]) is False
+                return [("exactly the described sources, once each, with the described keywords (type defaults to simple, correlation to 0, relative to False)", z3.BoolVal(bool(ok)))]
+            c.ensures.append(post)
+            eng.verify(CET, "process_error_sources", None, lambda e, st, me_, kind=kind, key=key, mk_doc=mk_doc: {"container_obj": container(kind), "yaml_doc": VDict({key: mk_doc()})}, contract=c, tag=f"[{kind}.{key}: {form}]")
+    return eng
+
+
+
+# explicit-form namespaces per fit type: which reader consumes which key (DataContainerYamlReader / ParametricModelYamlReader._convert_yaml_doc_to_object)
+EXPLICIT_FORM = {
+    "XYFit": {"dataset": {"x_data", "y_data", "x_errors", "y_errors", "label", "x_label", "y_label"},
+              "parametric_model": {"x_data", "model_function", "model_function_name", "latex_model_function_name", "model_parameters", "arg_formatters", "model_function_formatter", "expression_string", "latex_expression_string", "model_label"}},
+    "IndexedFit": {"dataset": {"data", "errors", "label", "x_label", "y_label"},
+                   "parametric_model": {"model_function", "model_function_name", "latex_model_function_name", "index_name", "latex_index_name", "model_parameters", "arg_formatters", "model_function_formatter", "expression_string", "latex_expression_string", "model_label"}},
+    "HistFit": {"dataset": {"n_bins", "bin_range", "bin_edges", "raw_data", "errors", "label", "x_label", "y_label"},
+                "parametric_model": {"n_bins", "bin_range", "bin_edges", "model_density_function", "model_density_function_name", "latex_model_density_function_name", "model_parameters", "arg_formatters", "model_function_formatter", "expression_string", "latex_expression_string", "model_label"}},
+    "UnbinnedFit": {"dataset": {"data", "label", "x_label", "y_label"},
+                    "parametric_model": {"data", "model_function", "model_function_name", "latex_model_function_name", "model_parameters", "arg_formatters", "model_function_formatter", "expression_string", "latex_expression_string", "model_label"}},
+    "CustomFit": {"dataset": {"label", "x_label", "y_label"}, "parametric_model": {"model_parameters", "arg_formatters", "model_function_formatter", "expression_string", "latex_expression_string", "model_label"}},
+}
+
+
+def u_yaml_toplevel(root):
+    """top-level keys of a fit document are moved into the namespaces of the explicit form"""
+    eng = engine(root, FILES + ["kafe2/fit/representation/fit/yaml_drepr.py", "kafe2/fit/representation/_yaml_base.py"], {}, [])
+    for cls in EXPLICIT_FORM:
+        eng.lib["class:" + cls] = lambda e, st, a, kw, n: VNone()
+    eng.consts = {c_: VLib("class:" + c_) for c_ in EXPLICIT_FORM}
+    for cls, spaces in EXPLICIT_FORM.items():
+        c = Contract("FitYamlReader", "_get_subspace_override_dict")
+
+        def post(vw, cls=cls, spaces=spaces):
+            r = vw.result
+            if not isinstance(r, VDict):
+                return [("a table", z3.BoolVal(False))]
+            got = {}
+            for key, tgt in r.d.items():
+                got[key] = set([as_py(x) for x in tgt.items] if isinstance(tgt, VTuple) else [as_py(tgt)])
+            want = {}
+            for ns, keys in spaces.items():
+                for k_ in keys:
+                    want.setdefault(k_, set()).add(ns)
+            return [("every shorthand key goes to exactly the namespaces whose reader consumes it in the explicit form", z3.BoolVal(got == want))]
+        c.ensures.append(post)
+        eng.verify("FitYamlReader", "_get_subspace_override_dict", None, lambda e, st, me_, cls=cls: {"cls": VLib("class:FitYamlReader"), "fit_class": VLib("class:" + cls)}, contract=c, tag=f"[{cls}]")
+    # the mechanism that applies a table: a present (truthy) top-level value is moved into EVERY listed namespace (created when missing), existing namespace content is kept
+    table = VDict({"k_one": VStr("ns_a"), "k_two": VTuple([VStr("ns_a"), VStr("ns_b")]), "k_absent": VStr("ns_b")})
+    mk(eng, "YamlReaderMixin", "_type_required", result=lambda vw: VBool(z3.BoolVal(False)))
+    mk(eng, "YamlReaderMixin", "_modify_yaml_doc", result=lambda vw: vw.args["yaml_doc"])
+    mk(eng, "YamlReaderMixin", "_get_subspace_override_dict", result=lambda vw: table)
+    mk(eng, "YamlReaderMixin", "_get_required_keywords", result=lambda vw: VTuple([]))
+    v1, v2, keep = VStr("value-1"), VStr("value-2"), VStr("kept")
+    c = Contract("YamlReaderMixin", "_check_required_keywords_and_override_subspaces")
+
+    def post(vw):
+        r = vw.result
+        ok = isinstance(r, VDict) and set(r.d) == {"ns_a", "ns_b", "other"} and isinstance(r.d["ns_a"], VDict) and isinstance(r.d["ns_b"], VDict)
+        ok = ok and r.d["ns_a"].d.get("k_one") is v1 and r.d["ns_a"].d.get("k_two") is v2 and r.d["ns_a"].d.get("present") is keep and set(r.d["ns_a"].d) == {"k_one", "k_two", "present"}
+        ok = ok and r.d["ns_b"].d.get("k_two") is v2 and set(r.d["ns_b"].d) == {"k_two"} and r.d["other"] is keep
+        return [("moved into every listed namespace, removed from the top level, other content untouched", z3.BoolVal(bool(ok)))]
+    c.ensures.append(post)
+    eng.truth_hook = None
+    eng.verify("YamlReaderMixin", "_check_required_keywords_and_override_subspaces", None,
+               lambda e, st, me_: {"cls": VRef(z3.Const("cls", Ref), "YamlReaderMixin"), "yaml_doc": VDict({"k_one": v1, "k_two": v2, "ns_a": VDict({"present": keep}), "other": keep}), "default_type": VStr("xy"), "modify_kwargs": VNone()}, contract=c)
+    return eng
+
+
+def u_model_names(root):
+    """a model given by its library name is the library function itself"""
+    eng = engine(root, FILES + ["kafe2/fit/_base/model.py"], {}, [])
+    import ast as _ast
+    path = "kafe2/fit/util/function_library.py"
+    tree = eng.repo.files[path][1] if isinstance(eng.repo.files[path], tuple) and len(eng.repo.files[path]) > 1 else _ast.parse(eng.repo.files[path][0])
+    table = None
+    for stmt in tree.body:
+        if isinstance(stmt, _ast.Assign) and any(isinstance(t, _ast.Name) and t.id == "STRING_TO_FUNCTION" for t in stmt.targets):
+            table = {k_.value: _ast.unparse(v) for k_, v in zip(stmt.value.keys, stmt.value.values)}
+    defs = {f.name: f for f in tree.body if isinstance(f, _ast.FunctionDef)}
+    alias = {t.id: _ast.unparse(stmt.value) for stmt in tree.body if isinstance(stmt, _ast.Assign) and isinstance(stmt.value, _ast.Name) for t in stmt.targets if isinstance(t, _ast.Name)}
+    want = {"line": "linear_model", "linear": "linear_model", "linear_model": "linear_model", "quadratic": "quadratic_model", "quadratic_model": "quadratic_model", "cubic": "cubic_model", "cubic_model": "cubic_model",
+            "exp": "exponential_model", "exponential": "exponential_model", "exponential_model": "exponential_model", "normal": "normal_distribution", "normal_distribution": "normal_distribution", "normal_distribution_pdf": "normal_distribution"}
+    resolved = {k_: alias.get(v, v) for k_, v in (table or {}).items()}
+    eng.lemma("library names resolve to the functions they name (table read from the real source)", [], z3.BoolVal(resolved == want and all(v in defs for v in want.values())))
+    # the bodies are what their names say (verified from the real source for all x and parameters)
+    UTILF = "@" + path
+    x, a_, b_, c_, d_ = z3.Reals("x a b c d")
+    specs = {"linear_model": (["x", "a", "b"], lambda v: v["a"] * v["x"] + v["b"]), "quadratic_model": (["x", "a", "b", "c"], lambda v: v["a"] * v["x"] * v["x"] + v["b"] * v["x"] + v["c"]),
+             "cubic_model": (["x", "a", "b", "c", "d"], lambda v: v["a"] * v["x"] * v["x"] * v["x"] + v["b"] * v["x"] * v["x"] + v["c"] * v["x"] + v["d"])}
+    for fn, (names, f) in specs.items():
+        vals = {n_: z3.Real(n_) for n_ in names}
+        cc = Contract(UTILF, fn)
+        cc.ensures.append(lambda vw, f=f, vals=vals: [("the polynomial its name says", vw.result.real() == f(vals))])
+        eng.verify(UTILF, fn, None, lambda e, st, me_, vals=vals: {n_: VNum(t) for n_, t in vals.items()}, contract=cc)
+    return eng
+
+
 def units(root):
     return [Unit("SimpleGaussianError._calculate_cov_mat_generic (shared with C02)", c02.u_generic), Unit("SimpleGaussianError caches (shared with C02)", c02.u_source),
-            Unit("MatrixGaussianError helpers", u_matrix_helpers), Unit("MatrixGaussianError getters", u_matrix_getters), Unit("MatrixGaussianError.__init__", u_matrix_init), Unit("source equivalence lemmas", u_source_lemmas), Unit("parameter constraint forms", u_constraint_forms), Unit("GaussianMatrixParameterConstraint.__init__", u_constraint_init), Unit("scalar broadcasting", u_broadcast), Unit("wrapper error keywords", u_wrapper_errors), Unit("_fit_wrapper_generic", u_wrapper_generic), Unit("wrapper functions: construction and forwarding", u_wrapper_toplevel)]
+            Unit("MatrixGaussianError helpers", u_matrix_helpers), Unit("MatrixGaussianError getters", u_matrix_getters), Unit("MatrixGaussianError.__init__", u_matrix_init), Unit("source equivalence lemmas", u_source_lemmas), Unit("parameter constraint forms", u_constraint_forms), Unit("GaussianMatrixParameterConstraint.__init__", u_constraint_init), Unit("scalar broadcasting", u_broadcast), Unit("wrapper error keywords", u_wrapper_errors), Unit("_fit_wrapper_generic", u_wrapper_generic), Unit("wrapper functions: construction and forwarding", u_wrapper_toplevel), Unit("YAML error shorthand", u_yaml_errors), Unit("YAML top-level keys", u_yaml_toplevel), Unit("model library names", u_model_names)]
